@@ -70,9 +70,14 @@ def exec_verdicts(tier, replay_text=None):
         texts, gres = programs(tier)
     evs = observe(rvh, texts, wd, "exec")
     v, ress = validate_chunks("Trace_Exec", evs, wd, "exec.chunk", chunk=400, heap="8g", timeout=3000)
-    stats = []
+    stats, dets = [], {}
     for r in ress:
         stats += r.tagged("STAT")
+        for d in r.tagged("DETAIL"):
+            dets[d["id"]] = d["det"]
+    for x in v:
+        if x["id"] in dets:
+            x["where"] = dets[x["id"]]
     stops = {}
     for st in stats:
         for s in st["stops"]:
